@@ -68,17 +68,40 @@ def _env_for(job):
     return env
 
 
+ALT = "" if REPO == "/repo" else "-alt" + hashlib.sha1(REPO.encode()).hexdigest()[:8]
+
+
+def crate_dir_of(crate):
+    """Harness crates have path dependencies on /repo.  When VERIF_REPO points somewhere else (evaluating a
+    seeded change in a scratch worktree without touching /repo), a copy of the harness crate with the
+    paths rewritten is used instead."""
+    base = os.path.join(VERIF, "kani", crate)
+    if not ALT:
+        return base
+    return os.path.join(WORK, "crates" + ALT, crate)
+
+
 def crate_dir(job):
-    return os.path.join(VERIF, "kani", job.crate)
+    return crate_dir_of(job.crate)
 
 
 def target_dir(job):
-    return os.path.join(WORK, "target", job.config_key())
+    return os.path.join(WORK, "target", job.config_key() + ALT)
 
 
 def prepare_crate(crate):
     """Harness crates use path dependencies on /repo and its lock file."""
-    d = os.path.join(VERIF, "kani", crate)
+    d = crate_dir_of(crate)
+    if ALT:
+        src = os.path.join(VERIF, "kani", crate)
+        if os.path.exists(d):
+            shutil.rmtree(d)
+        shutil.copytree(src, d, ignore=shutil.ignore_patterns("target"))
+        for dp, _, fs in os.walk(d):
+            for f in fs:
+                if f == "Cargo.toml":
+                    t = open(os.path.join(dp, f)).read().replace('"/repo/', '"%s/' % REPO)
+                    open(os.path.join(dp, f), "w").write(t)
     lock = os.path.join(REPO, "Cargo.lock")
     if os.path.exists(lock):
         shutil.copyfile(lock, os.path.join(d, "Cargo.lock"))
@@ -168,7 +191,7 @@ def parse(out):
 
 def is_repo_fn(check):
     loc = check["loc"]
-    return REPO + "/" in loc or loc.startswith("/repo/") or "/repo/" in loc
+    return (REPO.lstrip("/") + "/") in loc or "/repo/" in loc
 
 
 def classify(job, res, timed_out):
